@@ -8,6 +8,10 @@
 (***************************************************************************)
 EXTENDS C25519, TraceBase
 
+\* Ristretto.tla (RFC 9496) with the specification's own square roots
+Rist == INSTANCE Ristretto WITH SqrtRI <- LAMBDA u, v : SqrtRatioI(u, v),
+                                InvSqrtAMinusD <- TLCEval(SqrtRatioI(FOne, FSub(FNeg(FOne), FD))[2]),
+                                SqrtAdMinusOne <- TLCEval(FNeg(SqrtRatioI(FSub(FNeg(FD), FOne), FOne)[2]))
 FB(bs) == FFromBytes(bs)
 CanonFE(bs) == BytesBelowP(bs) /\ bs[32] < 128
 A486662 == FInt(486662)
@@ -86,7 +90,7 @@ EventOK(e) ==
          CASE e.name = "ED25519_BASEPOINT_COMPRESSED" -> e.val = EncodePoint(BasePt)
            [] e.name = "X25519_BASEPOINT" -> e.val = ToBytes(<<9>>, 32)
            [] e.name = "BASEPOINT_ORDER" -> e.val = ToBytes(LL, 32)
-           [] e.name = "RISTRETTO_BASEPOINT_COMPRESSED" -> TRUE       \* checked by C11 (Ristretto encoding of B)
+           [] e.name = "RISTRETTO_BASEPOINT_COMPRESSED" -> e.val = FToBytes(Rist!EncodeField(BasePt))   \* RFC 9496 encoding of B
            [] OTHER -> FALSE
     [] e.op = "niels" -> /\ e.i \in 0..31 /\ e.j \in 0..63
                          /\ NielsOK(Expected(e.name, e.i, e.j), FB(e.ypx), FB(e.ymx), FB(e.xy2d))
